@@ -1,9 +1,11 @@
 From Coq Require Import Extraction ExtrOcamlBasic.
 From Common Require Import Bytes Drv.
-From C29 Require Import Model ModelField ModelEd25519 ModelSecp256k1.
+From C29 Require Import Model ModelField ModelEd25519 ModelSecp256k1 ModelHost.
 Extraction "model.ml" drv_b2n drv_n2b drv_z_of_n drv_n_of_z drv_nat_of_n drv_n_of_nat
   blake2b128 blake2b8 blake2b_hash keccak_256 twox64 twox128 twox256 sha2_256 all_digests
   verify_both verify_go verify_zip215 zip215_guard ed25519_verify_signature ed25519_case pt_decode ed_L
   secp256k1_verify_signature secp256k1_pubkey_verify
   recover_public_key recover_public_key_compressed
-  recover_public_key_prefix recover_public_key_compressed_prefix ecdsa_verify parse_pubkey.
+  recover_public_key_prefix recover_public_key_compressed_prefix ecdsa_verify parse_pubkey
+  host_ed25519_case host_ed25519_verify host_ecdsa_verify substrate_ecdsa_verify host_ecdsa_guard
+  host_recover host_recover_compressed.
